@@ -44,6 +44,10 @@ SPECS = {
     # must be notified once per interval
     "attend_attend": dict(pre=[("regp", CAM), ("regc", CAM), ("subn", CAM, (CAM,), "s2", 1000), ("add", CAM, "camA", 9), ("attend",)], adv=2,
                           actors=[[("attend",)], [("attend",)], [("req", CAM, (CAM,))]]),
+    # update of both attributes a two-statement filter looks at || filtered query || plain query: the filter must see the
+    # old or the new object, never a mixture, and a result handed out must not change afterwards
+    "upd_filtered_req": dict(pre=[("regp", CAM), ("regc", CAM), ("add", CAM, "camA", 5)], adv=0,
+                             actors=[[("upd", CAM, 0, "camC")], [("reqf", CAM, (CAM,), "camA", "camC")], [("req", CAM, (CAM,))]]),
     # update || query || maintenance
     "upd_req_trash": dict(pre=[("regp", CAM), ("regc", CAM), ("add", CAM, "camA", 5)], adv=0,
                           actors=[[("upd", CAM, 0, "camB")], [("req", CAM, (CAM,))], [("maint",)]]),
@@ -68,6 +72,7 @@ class LdmHarness:
         self.s = s
         self.w = L.LdmWorld()
         self.sub_ids = {}
+        self.raw_results = []       # (canonical form at return time, the objects handed out)
         self.results = {}
         self.stamps = {}
         self.clock = 0
@@ -102,6 +107,18 @@ class LdmHarness:
             return w.delete(op[1], op[2])
         if k == "req":
             r = w.request(op[1], op[2])
+            if not L.is_exc(r):
+                self.raw_results.append((canon_records(r[1]), r[1]))
+            return r if L.is_exc(r) else (r[0], canon_records(r[1]))
+        if k == "reqf":
+            # station id of the old message AND generationDeltaTime of the new one: true for neither version
+            old_m, new_m = L.MSGS[op[3]](), L.MSGS[op[4]]()
+            f = L.C.Filter(L.C.FilterStatement("header.stationId", L.C.ComparisonOperators.EQUAL, old_m["header"]["stationId"]),
+                           L.C.LogicalOperators.AND,
+                           L.C.FilterStatement("cam.generationDeltaTime", L.C.ComparisonOperators.EQUAL, new_m["cam"]["generationDeltaTime"]))
+            r = w.request(op[1], op[2], filt=f)
+            if not L.is_exc(r):
+                self.raw_results.append((canon_records(r[1]), r[1]))
             return r if L.is_exc(r) else (r[0], canon_records(r[1]))
         if k == "maint":
             r = w.maintenance()
@@ -170,6 +187,9 @@ class LdmHarness:
         for k, v in self.results.items():
             if L.is_exc(v):
                 bad.append(dict(kind="operation_raised", harness=self.name, op=list(self.spec["actors"][k[0]][k[1]])[:2], exc=v[1] + ": " + v[2][:60]))
+        for at_return, objs in self.raw_results:
+            if canon_records(objs) != at_return:
+                bad.append(dict(kind="query_result_changed_after_return", harness=self.name))
         ref = sequential_outcomes(self.name)
         keys = [(ai, oi) for ai, oi, _ in self.ops]
         ok = False
